@@ -183,13 +183,23 @@ fn collect_dangling(
                 let Some(path) = map.get(key).and_then(Value::as_str) else {
                     continue;
                 };
-                if path.starts_with('.')
-                    || map.get("var").and_then(Value::as_bool) == Some(true)
-                    || index.resolve(0, path, true).is_ok()
-                {
+                if map.get("var").and_then(Value::as_bool) == Some(true) {
                     continue;
                 }
-                let mut candidate = path.to_owned();
+                // a relative reference is judged by the absolute path it stands for
+                let path = match path.strip_prefix('.') {
+                    Some(relative) => {
+                        let Some(absolute) = absolute_from(trail, relative) else {
+                            continue;
+                        };
+                        absolute
+                    }
+                    None => path.to_owned(),
+                };
+                if index.resolve(0, &path, true).is_ok() {
+                    continue;
+                }
+                let mut candidate = path;
                 for _ in 0..16 {
                     let step = relocated
                         .iter()
@@ -220,6 +230,30 @@ fn collect_dangling(
         }
         _ => {}
     }
+}
+
+/// Absolute path that `relative` (without its leading dot) denotes when written in the token
+/// reached by `trail`.
+fn absolute_from(trail: &[PathStep], relative: &str) -> Option<String> {
+    let mut components: Vec<String> = Vec::new();
+    for step in trail {
+        match step {
+            PathStep::Index(position) => components.push(position.to_string()),
+            PathStep::Key(name) => {
+                // named content lives in the container's last element
+                components.pop()?;
+                components.push(name.clone());
+            }
+        }
+    }
+    for part in relative.split('.') {
+        if part == "^" {
+            components.pop()?;
+        } else {
+            components.push(part.to_owned());
+        }
+    }
+    Some(components.join("."))
 }
 
 pub(crate) fn check(document: &Value, external_functions: &[String]) -> Result<(), CompilerError> {
